@@ -4,6 +4,7 @@ import Driver.IssuanceOps
 import Driver.NonRevocOps
 import Driver.ProveOps
 import Driver.ForgeOps
+import Driver.ProveNrOps
 import Driver.BlindOps
 import Driver.BnOps
 import Driver.ScalarOps
@@ -15,7 +16,7 @@ namespace Drv
 /-- every area contributes a partial dispatcher `String → Json → Option (Except String Json)`;
     add new areas to this list (one line each) -/
 def dispatchers : List (String → Json → Option (Except String Json)) :=
-  [ dispatchReg, dispatchNonRevoc, dispatchPrimary noNrHook, dispatchIssuance, dispatchProve, dispatchForge, dispatchBlind, dispatchScalar, dispatchBn , dispatchCodec]
+  [ dispatchReg, dispatchNonRevoc, dispatchPrimary noNrHook, dispatchIssuance, dispatchProve, dispatchProveNr, dispatchForge, dispatchBlind, dispatchScalar, dispatchBn , dispatchCodec]
 
 def dispatch (op : String) (inp : Json) : Except String Json :=
   match dispatchers.findSome? (fun d => d op inp) with
